@@ -22,6 +22,12 @@ class VariableBoundMinPropagator(VariableBoundPropagator):
         # Obtain the max value from the
         min_v = self.min()
         
+        if min_v > self.target.domain.range_l[-1][1]:
+            # No value of the domain is at or above the limit: the domain
+            # becomes empty (rather than an inverted range)
+            self.target.domain.range_l = []
+            return True
+        
         range_l = self.target.domain.range_l
         
 #        print("Min: range_l=" + str(range_l) + " min_v=" + str(min_v))
